@@ -25,6 +25,18 @@ func (c *clientPool) setPool(nodeID uint64, p Pool) {
 	c.mu.Unlock()
 }
 
+// setPoolIfAbsent registers p for nodeID unless a pool is registered already, and
+// returns the registered pool and whether it was there before.
+func (c *clientPool) setPoolIfAbsent(nodeID uint64, p Pool) (Pool, bool) {
+	c.mu.Lock()
+	defer c.mu.Unlock()
+	if existing, ok := c.pool[nodeID]; ok {
+		return existing, true
+	}
+	c.pool[nodeID] = p
+	return p, false
+}
+
 func (c *clientPool) getPool(nodeID uint64) (Pool, bool) {
 	c.mu.RLock()
 	p, ok := c.pool[nodeID]
